@@ -57,6 +57,24 @@ Theorem C06_one_signature_per_item :
 Proof. exact run_spec_length. Qed.
 Print Assumptions C06_one_signature_per_item.
 
+(* For ANY chain spec values and ANY domain provider (nothing assumed about the constants): every
+   returned signature is the i-th account's over compute_signing_root(object root of the i-th
+   message, D) where D is what the provider answered for the service's domain type OF THAT DUTY
+   ([duty_domain]: s_attester for attestations, s_proposer for blocks, ... s_builder with
+   GenesisDomain for registrations) and THE DUTY'S EPOCH (slot / SLOTS_PER_EPOCH; the caller's epoch
+   for sync committee messages; each contribution's own slot). *)
+Theorem C06_request_triple :
+  forall (H : N -> N -> N) (sig : Type) (zero_sig : sig) (sign : N -> N -> sig) (P : provider) (Sv : service)
+         (q : request) (sigs : list sig),
+    run H sig zero_sig P (honest H sig sign) Sv q = Ok sigs ->
+    length sigs = length (request_items q) /\
+    forall i a m, nth_error (request_items q) i = Some (a, m) ->
+      exists s, nth_error sigs i = Some s /\
+        exists domain, duty_domain P Sv m = Some domain /\
+          s = expected sig zero_sig sign a (compute_signing_root H (duty_object_root H (s_spe Sv) m) domain).
+Proof. exact run_general. Qed.
+Print Assumptions C06_request_triple.
+
 (* ------------------------------------------------------------------------------------------ *)
 (* The split by account kind and the index maps (helpers.go:signRootsByAccountType,             *)
 (* signbeaconattestations.go), for ANY domain provider and service configuration.               *)
@@ -281,6 +299,16 @@ Theorem C06_uint64_root :
   forall x : N, put_uint64_le x = u64_chunk x.
 Proof. exact put_uint64_le_is_u64_chunk. Qed.
 Print Assumptions C06_uint64_root.
+
+(* The specification's fork lookup (Lib/Ssz.v version_at, used by get_domain) is "the version of the
+   last fork activated at or before the epoch, else the genesis version", for ascending schedules. *)
+Theorem C06_version_at_is_last_activated_fork :
+  forall (forks : list (N * N)) (genesis_version epoch : N),
+    ascending forks ->
+    version_from genesis_version forks epoch
+    = last (map snd (filter (fun f => fst f <=? epoch) forks)) genesis_version.
+Proof. intros forks v e Hasc. exact (version_from_last forks v e Hasc). Qed.
+Print Assumptions C06_version_at_is_last_activated_fork.
 
 (* Completeness of a sub-batch: accounts of one family -- all local signers that can sign, or all
    remote protecting multi-signers (able or not) -- always get a result, item by item. *)
